@@ -25,6 +25,7 @@ RULE = (
     "reach the target."
 )
 REQUIRED = {
+    "mon:runlevel.forwarded-once-each": 200,
     "mon:block.contiguous-and-complete": 500,
     "mon:outcome.exactly-once-in-thread-order": 500,
     "mon:block.own-start-time": 500,
@@ -354,6 +355,13 @@ def check_log(ctx, workload, sch, log, sem, errors, exc, threads, fault, detail)
               lambda: {"intruders": intruders[:5],
                        "blocks": [(b["task"], b["test"], [x.name for x in b["events"]]) for b in blocks][:8],
                        **detail()})
+    # run-level calls reach the target, each one once
+    if fault is None:
+        issued = {k: sum(1 for ops in workload for op in ops if op[0] == k)
+                  for k in ("startTestRun", "stopTestRun", "stop", "done")}
+        seen = {k: sum(1 for e in events if e.name == k) for k in issued}
+        ctx.check(seen == issued, "runlevel.forwarded-once-each",
+                  lambda: {"issued": issued, "reached the target": seen, **detail()})
     # run-level calls never inside another task's block
     rl = [x for x in intruders if x[1] in ("startTestRun", "stopTestRun", "stop", "done", "shouldStop-read")]
     ctx.check(not rl, "runlevel.never-inside-a-block", lambda: {"intruders": rl[:5], **detail()})
